@@ -271,7 +271,10 @@ func c20WalkAll(c *fw.Ctx, e *Env, ctx sdk.Context) {
 	L := e.L
 	g := sdk.WrapSDKContext(ctx)
 	obs := L.Observe(ctx)
-	ek, wk, bk, sk := L.App.EnterpriseKeeper, L.App.WrkchainKeeper, L.App.BeaconKeeper, L.App.StreamKeeper
+	// all queries go through the ABCI Query entry point (the services as the modules registered them,
+	// served from the last committed state - which is what ctx is)
+	conn := lab.ABCIConn{App: L.App}
+	ek, wk, bk, sk := enttypes.NewQueryClient(conn), wrkchaintypes.NewQueryClient(conn), beacontypes.NewQueryClient(conn), streamtypes.NewQueryClient(conn)
 	// ---- purchase orders: expected from point queries over every id ever issued
 	var allPO []enttypes.EnterpriseUndPurchaseOrder
 	firstPO := e.L.Opts.PoStartID
